@@ -10,6 +10,7 @@ NAMES = ["lib", "library", "pub_sub", "ai"]
 FILE_BASES = ["lib", "types", "service", "foo.bar", "import", "metadata", "class", "common_types", "v1_api", "request"]
 
 
+SUB_SEGS = ["admin", "s", "types2", "audit", "t", "u", "admin"]      # a segment may repeat along a path (`admin.admin`)
 NS_OVERRIDE_SEGS = ["foo", "bar", "zed", "google", "cloud", "ads", "a1", "x_y"]
 COLLIDING = [("common_types", "common.types"), ("foo.bar", "foo_bar"), ("import", "import_"), ("class_", "class"), ("a_b.c", "a.b_c"), ("metadata", "metadata_")]
 
@@ -26,7 +27,7 @@ def gen_case(r: apigen.Rng, idx: int):
         pair = list(r.pick(COLLIDING))
         if r.maybe(): pair.reverse()
         bases = pair + [b for b in bases if b not in pair][:nfiles - 2]
-    sub = r.maybe(0.3) and ver != ""
+    sub = r.maybe(0.45) and ver != ""
     case = {"pkg": pkg, "ns": ns, "name": name, "version": ver, "files": [], "deps": r.maybe(0.5), "sub": None,
             "prefix_dep": bool(ver) and ver in ("v1", "v2alpha") and r.maybe(0.05)}
     for i, b in enumerate(bases):
@@ -35,9 +36,23 @@ def gen_case(r: apigen.Rng, idx: int):
     if len(case["files"]) > 1 and r.maybe(0.3):
         case["files"][1]["services"] = 1
     if sub:
-        case["sub"] = r.pick(["admin", "types2"])
-        case["files"].append({"base": r.pick(["extra", "more"]), "pkg": pkg + "." + case["sub"], "messages": 1, "enum": False,
-                              "services": 1 if r.maybe(0.4) else 0})
+        # a sub-package tree 1..3 levels deep below the API package: one or two branches, a file ALWAYS at the end of a branch and,
+        # independently, with or without a file at every intermediate level (an EMPTY intermediate package `acme.lib.v1.admin`
+        # between `acme.lib.v1` and `acme.lib.v1.admin.audit` is still a directory of the import path); messages, enums and
+        # services at any level.  Snippets are off in every case (services in sub-packages: known KeyError finding).
+        paths = []
+        for _ in range(r.pick([1, 1, 2])):
+            depth = r.pick([1, 2, 2, 3])
+            first = r.pick(SUB_SEGS[:3])
+            branch = [first] + [r.pick(SUB_SEGS) for _ in range(depth - 1)]
+            for lvl in range(1, depth + 1):
+                if (lvl == depth or r.maybe(0.4)) and branch[:lvl] not in paths:
+                    paths.append(branch[:lvl])
+        case["sub"] = [".".join(q) for q in paths]
+        bases = r.sample(["extra", "more", "log", "audit_log", "entry", "ops"], len(paths))
+        for q, b in zip(paths, bases):
+            case["files"].append({"base": b, "pkg": pkg + "." + ".".join(q), "messages": r.randint(1, 2), "enum": r.maybe(0.2),
+                                  "services": 1 if r.maybe(0.4) else 0})
     # options
     tr = r.pick(["grpc", "rest", "grpc+rest"])
     opts = [f"transport={tr}", "autogen-snippets=false"]
@@ -177,6 +192,49 @@ def oracle(ctx, case, res, files, targets, payload):
     sdirs = sorted(set(re.search(r"/services/([^/]+)/", n).group(1) for n in names if re.search(r"/services/([^/]+)/", n) and n.startswith(root + "/")))
     if sdirs != sorted(to_snake_case(s) for s in svc_names):
         ctx.fail("service-packages", f"service packages {sdirs} for services {svc_names}", payload)
+    # PLACEMENT (any nesting depth, with or without files in the intermediate packages): the types module of a target file sits
+    # directly under <root>/<sub-package path>/types/, the package of a service under <root>/<sub-package path>/services/, and
+    # every directory from the root down to them carries an __init__.py
+    k = 0
+    type_dirs, svc_dirs = set(), set()
+    for i, fd in enumerate(case["files"]):
+        subpath = fd["pkg"][len(case["pkg"]):].strip(".").replace(".", "/")
+        base = root + ("/" + subpath if subpath else "")
+        tdir = base + "/types/"
+        type_dirs.add(tdir)
+        mods = {f.name: f.content for f in res.file if f.name.startswith(tdir) and "/" not in f.name[len(tdir):]
+                and f.name.endswith(".py") and f.name != tdir + "__init__.py"}
+        mine = [f"Msg{j}" for j in range(k, k + fd["messages"])]; k += fd["messages"]
+        holders = sorted({n for n, c in mods.items() for m in mine if f"class {m}(" in c})
+        if mine and (len(holders) != 1 or any(f"class {m}(" not in mods[holders[0]] for m in mine)):
+            where = sorted(f.name for f in res.file for m in mine if f"class {m}(" in f.content and "/types/" in f.name)
+            ctx.fail("types-module-placement", f"messages {mine} of {fd['base']}.proto (package {fd['pkg']}) are not in one types module under "
+                     f"{tdir}: found in {where}", payload)
+        dirs = [base]
+        if fd["messages"] or fd["enum"] or fd["services"]:
+            dirs.append(base + "/types")
+        for sv in range(fd["services"]):
+            sname = to_snake_case("Library" if not (i or sv) else f"Svc{i}x{sv}")
+            sdir = base + "/services/" + sname
+            svc_dirs.add(sdir)
+            if sdir + "/client.py" not in nameset:
+                where = sorted(n for n in names if n.endswith("/services/" + sname + "/client.py"))
+                ctx.fail("service-package-placement", f"service {sname} of {fd['base']}.proto (package {fd['pkg']}): no {sdir}/client.py; its client is at {where}", payload)
+            dirs += [base + "/services", sdir]
+        for d in dirs:
+            while len(d) >= len(root):
+                if d + "/__init__.py" not in nameset:
+                    ctx.fail("init-closure", f"{fd['base']}.proto (package {fd['pkg']}): directory {d} of its import path has no __init__.py", payload)
+                    break
+                if d == root:
+                    break
+                d = os.path.dirname(d)
+    stray = [n for n in ntypes if os.path.dirname(n) + "/" not in type_dirs]
+    if stray:
+        ctx.fail("types-module-placement", f"types modules outside the sub-package directories of the target files: {stray[:4]}", payload)
+    stray = sorted({m.group(1) for n in names if n.startswith(root + "/") for m in [re.match(r"(.*/services/[^/]+)/", n)] if m} - svc_dirs)
+    if stray:
+        ctx.fail("service-package-placement", f"service packages outside the sub-package directories of their files: {stray[:4]}", payload)
     if case.get("prefix_dep") and any(n.split("/")[-1] == "legacy.py" for n in names):
         ctx.fail("dependency-file-emitted:string-prefix-package", f"output for the dependency-only file legacy.proto of package {case['pkg']}beta: "
                  f"{[n for n in names if n.endswith('/legacy.py')]}", payload)
@@ -203,6 +261,14 @@ def shape_of(api):
             "root": pk(()), "subs": [pk(sp.subpackage_view) for sp in api.subpackages.values()]}
 
 
+def layout_of(api):
+    """the target protos with the sub-package each lies in; which views get rendered is for the MODEL to say (`Layout.viewsOf`)"""
+    nm = api.naming
+    return {"naming": {"ns": [i.lower() for i in nm.namespace], "name": nm.module_name, "version": nm.version, "versioned": nm.versioned_module_name},
+            "protos": [{"sub": list(p.meta.address.subpackage), "module": p.module_name, "services": [s.module_name for s in p.services.values()]}
+                       for p in api.protos.values()]}
+
+
 def t2_filenames(ctx, r):
     """`Generator._get_filename` (string level) vs the segment-wise model, every template x random namings"""
     from gapic.generator import generator as gen_mod
@@ -218,7 +284,7 @@ def t2_filenames(ctx, r):
                 name = r.pick(NAMES); ver = r.pick(VERSIONS)
                 old = (which == "ads")
                 versioned = name + ((("." if old else "_") + ver) if ver else "")
-                sub = [] if r.maybe(0.6) else [r.pick(["admin", "types2"])]
+                sub = [] if r.maybe(0.5) else [r.pick(SUB_SEGS) for _ in range(r.randint(1, 3))]
                 svc, proto = r.pick(["library", "svc_one"]), r.pick(["lib", "foo_bar", "import_"])
                 naming = types.SimpleNamespace(namespace=tuple(s.capitalize() for s in ns), versioned_module_name=versioned, version=ver, module_name=name)
                 api = types.SimpleNamespace(naming=naming, subpackage_view=tuple(sub))
@@ -405,7 +471,7 @@ def run_case(ctx, case, label):
     # T3: file-name set vs the model
     api, opts = genrun.build_api(req)
     ex = api.all_library_settings[api.naming.proto_package].python_settings.experimental_features
-    op = {"op": "c11.renders", "templates": "default", "shape": shape_of(api),
+    op = {"op": "c11.renders", "templates": "default", "layout": layout_of(api),
           "opts": {"transport": list(opts.transport), "metadata": bool(opts.metadata), "restAsync": bool(ex.rest_async_io_enabled),
                    "unversionedDisabled": bool(ex.unversioned_package_disabled)}}
     mo = ctx.driver.ask([op])[0]
@@ -439,6 +505,18 @@ CORPUS = [
     {"pkg": "acme.lib.v1", "ns": ["acme"], "name": "lib", "version": "v1", "deps": False, "sub": None, "override_name": None, "override_ns": None,
      "files": [{"base": "lib", "pkg": "acme.lib.v1", "messages": 1, "enum": False, "services": 1}],
      "opts": ["transport=grpc", "autogen-snippets=false"], "unknown": ["foo=a=b"]},
+    # nesting below an EMPTY intermediate package (`acme.lib.v1` + `acme.lib.v1.admin.audit`; nothing in `.admin`), messages only
+    {"pkg": "acme.lib.v1", "ns": ["acme"], "name": "lib", "version": "v1", "deps": False, "sub": ["admin.audit"], "override_name": None, "override_ns": None,
+     "files": [{"base": "lib", "pkg": "acme.lib.v1", "messages": 1, "enum": False, "services": 1},
+               {"base": "log", "pkg": "acme.lib.v1.admin.audit", "messages": 2, "enum": True, "services": 0}],
+     "opts": ["transport=grpc", "autogen-snippets=false"], "unknown": ["zzz=1"]},
+    # three levels, two empty intermediate packages, a service at the bottom, and a second populated branch
+    {"pkg": "acme.lib.v1", "ns": ["acme"], "name": "lib", "version": "v1", "deps": True, "sub": ["s.t.u", "s.admin", "s.admin.admin"], "override_name": None, "override_ns": None,
+     "files": [{"base": "lib", "pkg": "acme.lib.v1", "messages": 1, "enum": False, "services": 1},
+               {"base": "leaves", "pkg": "acme.lib.v1.s.t.u", "messages": 1, "enum": False, "services": 1},
+               {"base": "ops", "pkg": "acme.lib.v1.s.admin", "messages": 1, "enum": False, "services": 0},
+               {"base": "more", "pkg": "acme.lib.v1.s.admin.admin", "messages": 1, "enum": False, "services": 1}],
+     "opts": ["transport=grpc+rest", "autogen-snippets=false", "metadata"], "unknown": ["unknown"]},
     # a package without namespace segments (setup.py.j2 crashed before the C11 fix: commit)
     {"pkg": "lib.v1", "ns": [], "name": "lib", "version": "v1", "deps": False, "sub": None, "override_name": None, "override_ns": None,
      "files": [{"base": "lib", "pkg": "lib.v1", "messages": 1, "enum": False, "services": 1}],
@@ -448,10 +526,11 @@ CORPUS = [
 
 def run(ctx):
     ctx.rule = ("layout profile: 0..3 namespace segments x versions {v1, v1beta1, v1p1beta1, v2alpha, none} x 1..3 target files with names needing "
-                "sanitising x optional dependency file x optional one-level sub-package x option strings (known, unknown, repeated keys, "
+                "sanitising x optional dependency file x optional sub-package tree (1..3 levels, 1..2 branches, intermediate packages with and "
+                "without files, services/messages at any level) x option strings (known, unknown, repeated keys, "
                 "name override, namespace override as 1..3 repeated keys each with 1..3 dotted components); Naming.build under "
                 "override option strings (0..4 namespace values, 0..2 name values) x packages; _get_filename: every template of both template sets x random namings; distinct by case")
-    ctx.assume("sub-packages are generated one level deep only (deeper nesting is DESIGN §9-F7, outside this profile)")
+    ctx.assume("sub-package segments are not `types`/`services` (they would share a directory with the types/services packages of the parent)")
     ctx.assume("namespace/name override values are made of [A-Za-z0-9_] components separated by '.' (names also by blanks), no empty component")
     r = ctx.rng("layout")
     t2_filenames(ctx, r)
@@ -504,5 +583,6 @@ CLAIM = dict(
     technique="Lean 4 theorems + `decide` over translator-bridged template tables; differential T2/T3 of file names; direct oracle",
     design="7.11",
     note="The lift of template-level __init__ closure to every emitted tree, Naming.build and Options.build are not proved (oracle + T3 only). "
-         "Sub-packages are modelled one level deep.",
+         "Sub-packages nest to any depth in the model (Layout.viewsOf: prefix closure; proto_file_under_own_subpackage, "
+         "service_file_under_own_subpackage, per_view_file_on_every_prefix); the ORDER in which the views are visited is not modelled.",
 )
